@@ -120,6 +120,14 @@ func (w *world) opNetLoad(op ledgerOp) {
 			}
 			return s
 		}
+	case "only":
+		sp.edit = func(s []*accountant.Vertex) []*accountant.Vertex {
+			if id, ok := w.realID(op.V); ok {
+				c := w.vtx[id-1]
+				return []*accountant.Vertex{&c}
+			}
+			return s
+		}
 	}
 	dp := &dstProxy{AccountingBook: dst.ab, done: make(chan struct{})}
 	sw, dw := src.w, dst.w
